@@ -429,7 +429,13 @@ def rule_wfsacall(P):
         ok = rd is not None and rd[1] is not None and norm(rd[1]) == "self.epsremove"
         r.add(f, u, ok, "" if ok else "the forward pass reads arcs of the original machine: ε arcs are never followed, "
               "so strings accepted through ε paths get weight zero")
-    r.min_instances = 1
+    # one exit, after the whole string has been read: an early return on "no mass left" assumes a zero-sum-free semiring
+    rets = [n for n in walk_live(f.node) if isinstance(n, ast.Return)]
+    early = [n for n in rets if W.enclosing_loops(n)]
+    r.add(f, early[0] if early else (rets[-1] if rets else f.node), not early,
+          "" if not early else f"`{first_line(early[0])}` leaves the forward pass inside the symbol loop: forward weights that sum to zero on a proper "
+          f"prefix (signed weights) do not make the string's weight zero", construct="__call__: no early exit from the forward pass")
+    r.min_instances = 2
     return r
 
 
